@@ -45,3 +45,11 @@ package labels
 //@   after call regexp.Compile assume (res1 == nil) == (res0 != nil)
 //@   at call regexp.Compile assert [the-whole-value-must-match] arg0 == "^(?:" + v + ")$"
 //@   assigns nothing
+
+// ---- C06 / C07: the order in which a route's matchers are sorted (and so printed into the route key) is a fixed
+// lexicographic order on (name, value, type) - a strict weak order, independent of how the list was written down.
+//@ func (Matchers).Less
+//@   props C06 C07 C16
+//@   requires 0 <= i && i < len(ms) && 0 <= j && j < len(ms) && ms[i] != nil && ms[j] != nil
+//@   ensures [lexicographic-on-name-value-type] result == (ms[i].Name != ms[j].Name ? ms[i].Name < ms[j].Name : (ms[i].Value != ms[j].Value ? ms[i].Value < ms[j].Value : ms[i].Type < ms[j].Type))
+//@   assigns nothing
